@@ -25,6 +25,7 @@ type WOp struct {
 	Gate bool  `json:"gate,omitempty"` // start: the waiter is held at its first ctx.Done() (after it registered, before it parks) until an "ungate" step
 	Two bool   `json:"two,omitempty"` // putmany: both keys
 	Exp bool   `json:"exp,omitempty"` // write with expiry +1h (only where the clock is controlled)
+	Past bool  `json:"past,omitempty"` // write a record whose expiry is already in the past: the key is gone for every waiter (in-memory only)
 	Min int    `json:"min,omitempty"` // advance
 }
 
@@ -43,6 +44,7 @@ type WEnv struct {
 	Now     func() time.Time
 	Table   func() (int, int, bool)
 	Gates   bool // gated starts are possible (deterministic environment only)
+	PastWrites bool // records may be written with an expiry that is already in the past (backends without TTL clamping)
 }
 
 type wkey struct {
@@ -145,7 +147,18 @@ func runWait(c WCase, env *WEnv, info *WInfo, livep *[]*wtr) *vstat.Violation {
 		return s.exists
 	}
 	nextID := 0
+	pastNow := false
 	wrote := func(k int, ver string, exp bool) {
+		if exp && pastNow {
+			// the record was written already expired: as if the key had been deleted
+			keys[k].exists = false
+			if keys[k].ver != "" {
+				keys[k].old = append(keys[k].old, keys[k].ver)
+			}
+			keys[k].ver = ""
+			keys[k].gen++
+			return
+		}
 		s := keys[k]
 		if s.ver != "" {
 			s.old = append(s.old, s.ver)
@@ -162,6 +175,9 @@ func runWait(c WCase, env *WEnv, info *WInfo, livep *[]*wtr) *vstat.Violation {
 			return nil
 		}
 		t := env.Now().Add(time.Hour)
+		if pastNow {
+			t = env.Now().Add(-time.Hour)
+		}
 		return &t
 	}
 	readVer := func(k int) (string, *vstat.Violation) {
@@ -175,6 +191,7 @@ func runWait(c WCase, env *WEnv, info *WInfo, livep *[]*wtr) *vstat.Violation {
 		where := fmt.Sprintf("step #%d %s", i, describeW(op))
 		k := op.Key & 1
 		cause := op.K
+		pastNow = op.Past && env.PastWrites && env.Advance != nil
 		switch op.K {
 		case "start":
 			if len(*livep) >= 4 {
@@ -236,7 +253,7 @@ func runWait(c WCase, env *WEnv, info *WInfo, livep *[]*wtr) *vstat.Violation {
 				}
 			}
 		case "put":
-			exp := op.Exp && env.Advance != nil
+			exp := (op.Exp || pastNow) && env.Advance != nil
 			r, err := env.St.Put(ctx, kvs.Record{Key: name(k), Value: []byte("p"), ExpiresAt: expiry(exp)})
 			if err != nil {
 				return vstat.V(env.Name+":put-error", "%s: Put failed: %s", where, errName(err))
@@ -247,7 +264,7 @@ func runWait(c WCase, env *WEnv, info *WInfo, livep *[]*wtr) *vstat.Violation {
 			if op.Two {
 				ks = []int{0, 1}
 			}
-			exp := op.Exp && env.Advance != nil
+			exp := (op.Exp || pastNow) && env.Advance != nil
 			var recs []kvs.Record
 			for _, kk := range ks {
 				recs = append(recs, kvs.Record{Key: name(kk), Value: []byte("m"), ExpiresAt: expiry(exp)})
@@ -256,6 +273,10 @@ func runWait(c WCase, env *WEnv, info *WInfo, livep *[]*wtr) *vstat.Violation {
 				return vstat.V(env.Name+":putmany-error", "%s: PutMany failed: %s", where, errName(err))
 			}
 			for _, kk := range ks {
+				if pastNow {
+					wrote(kk, "", exp)
+					continue
+				}
 				ver, v := readVer(kk)
 				if v != nil {
 					return v
@@ -271,7 +292,7 @@ func runWait(c WCase, env *WEnv, info *WInfo, livep *[]*wtr) *vstat.Violation {
 			if op.K == "casbad" {
 				arg = garbageVer
 			}
-			exp := op.Exp && env.Advance != nil
+			exp := (op.Exp || (pastNow && op.K == "casok")) && env.Advance != nil
 			r, err := env.St.CasByVersion(ctx, kvs.Record{Key: name(k), Value: []byte("c"), Version: arg, ExpiresAt: expiry(exp)})
 			if op.K == "casbad" {
 				if !isClass(err, gerrors.ErrConflict) {
@@ -320,6 +341,9 @@ func runWait(c WCase, env *WEnv, info *WInfo, livep *[]*wtr) *vstat.Violation {
 			panic("bad op " + op.K)
 		}
 
+		if pastNow && (op.K == "put" || op.K == "putmany" || op.K == "casok") {
+			cause = "write_of_expired_record"
+		}
 		// expectation for every live waiter
 		var must []chan struct{}
 		for _, w := range *livep {
